@@ -59,7 +59,10 @@ CONSTANTS
   PagesFix,        \* FALSE: today's code; TRUE: proposed repair of the half.pages bookkeeping (cleanSG counts the pages
                    \* a kept live packet is converted into, addPending uncounts the saved pages it drops)
   Script,          \* <<>>: every scenario within the bounds; otherwise the one scenario to run (sequence of operations)
-  ExportMod, ExportRem   \* behaviours whose hash % ExportMod = ExportRem are exported
+  ExportMod, ExportRem,  \* behaviours whose hash % ExportMod = ExportRem are exported
+  ExportSig              \* TRUE: also one behaviour per distinct set of code decisions (branch tags)
+
+ASSUME TLCSet(1, {})
 
 VARIABLES ops,       \* scenario so far (same format as ReasmGen)
           conf,      \* configuration of this behaviour (element of Cfgs)
@@ -99,12 +102,15 @@ NewSG == [all |-> <<>>, skip |-> 0, saved |-> 0, toKeep |-> -1]
 NewAsm == [heap |-> <<>>, used |-> 0, exists |-> FALSE, firstDir |-> 0,
            h |-> [r \in Roles |-> NewHalfC(0)],
            ret |-> <<>>, lp |-> NewLP, sg |-> NewSG, rvNext |-> -1,
-           evs |-> <<>>, panic |-> FALSE, flags |-> {},
+           evs |-> <<>>, panic |-> FALSE, flags |-> {}, tags |-> {}, ltags |-> {},
            live |-> FALSE, seen |-> [d \in Dirs |-> FALSE], flip |-> FALSE]
 
 Emit(x, e) == IF x.panic THEN x ELSE [x EXCEPT !.evs = Append(@, e)]
 Panic(x, why) == [x EXCEPT !.panic = TRUE, !.flags = @ \cup {why}]
 Flag(x, f) == [x EXCEPT !.flags = @ \cup {f}]
+\* branch coverage of the transcription: which decisions of the code an operation went through (drives the export:
+\* one behaviour per distinct set of decisions in its last operation, "one implementation test per transition")
+Tag(x, t) == [x EXCEPT !.tags = @ \cup {t}]
 
 \* containers of a.ret / cacheSG.all: 0 = &a.cacheLP, id > 0 = page
 CLen(x, c)   == IF c = 0 THEN Len(x.lp.b) ELSE Len(x.heap[c].b)
@@ -142,7 +148,8 @@ LPConvert(x, skip) ==
   ELSE LET x1 == Alloc(x, x.lp.ts)
            f == Len(x1.heap)
            x2 == [x1 EXCEPT !.heap[f].prev = 0, !.heap[f].pkt = TRUE]
-       IN LPConvLoop(x2, f, Drop(x.lp.b, skip), Add(x.lp.seq, skip), f, 1)
+           r == LPConvLoop(x2, f, Drop(x.lp.b, skip), Add(x.lp.seq, skip), f, 1)
+       IN [r EXCEPT !.a = Tag(r.a, IF r.n > 1 THEN "convert-multi-page" ELSE IF Len(x.lp.b) - skip = 0 THEN "convert-empty" ELSE "convert-one-page")]
 
 (* page.convertToPages: tcpassembly.go:253-260 *)
 PGConvert(x, id, skip) ==
@@ -168,11 +175,11 @@ CO(x, hr, cur, next, bytes, start, end, fuel) ==
   ELSE
   LET c == x.heap[cur] IN
   IF Diff(end, c.seq) > 0                                          \* (5) end < cur.start: continue
-  THEN CO(x, hr, c.prev, cur, bytes, start, end, fuel - 1)
+  THEN CO(Tag(x, "ov5"), hr, c.prev, cur, bytes, start, end, fuel - 1)
   ELSE
   LET curEnd == Add(c.seq, Len(c.b)) IN
   IF Diff(start, curEnd) <= 0                                      \* (1) start > cur.end: stop
-  THEN [a |-> x, cur |-> cur, next |-> next, bytes |-> bytes]
+  THEN [a |-> Tag(x, "ov1"), cur |-> cur, next |-> next, bytes |-> bytes]
   ELSE
   LET diffStart == Diff(start, c.seq)
       diffEnd == Diff(end, curEnd)
@@ -181,21 +188,21 @@ CO(x, hr, cur, next, bytes, start, end, fuel) ==
   THEN LET x1 == IF c.prev # 0 THEN [x EXCEPT !.heap[c.prev].next = c.next] ELSE [x EXCEPT !.h[hr].first = c.next]
            x2 == IF c.next # 0 THEN [x1 EXCEPT !.heap[c.next].prev = c.prev] ELSE [x1 EXCEPT !.h[hr].last = c.prev]
            x3 == [Replace(x2, cur) EXCEPT !.h[hr].pages = @ - 1]
-       IN CO(x3, hr, c.prev, next, bytes, start, end, fuel - 1)
+       IN CO(Tag(x3, "ov3"), hr, c.prev, next, bytes, start, end, fuel - 1)
   ELSE IF diffEnd < 0 /\ Diff(start, curEnd) > 0                   \* (2) drop cur's end, stop
   THEN LET n == -Diff(start, c.seq) IN
        IF n < 0 \/ n > c.cap THEN [a |-> Panic(x, "slice-bounds-case2"), cur |-> cur, next |-> next, bytes |-> bytes]
-       ELSE [a |-> [x EXCEPT !.heap[cur].b = Reslice(@, n)], cur |-> cur, next |-> next, bytes |-> bytes]
+       ELSE [a |-> Tag([x EXCEPT !.heap[cur].b = Reslice(@, n)], "ov2"), cur |-> cur, next |-> next, bytes |-> bytes]
   ELSE IF diffStart > 0 /\ Diff(end, c.seq) < 0                    \* (4) drop cur's start
   THEN LET k == -Diff(end, c.seq) IN
        IF k < 0 \/ k > Len(c.b) THEN [a |-> Panic(x, "slice-bounds-case4"), cur |-> cur, next |-> next, bytes |-> bytes]
-       ELSE CO([x EXCEPT !.heap[cur].b = Drop(@, k), !.heap[cur].seq = Add(@, k), !.heap[cur].cap = @ - k], hr, c.prev, cur, bytes, start, end, fuel - 1)
+       ELSE CO(Tag([x EXCEPT !.heap[cur].b = Drop(@, k), !.heap[cur].seq = Add(@, k), !.heap[cur].cap = @ - k], "ov4"), hr, c.prev, cur, bytes, start, end, fuel - 1)
   ELSE IF diffEnd >= 0 /\ diffStart <= 0                           \* (6) new packet inside cur: copy, nothing left to queue
   THEN LET lo == -diffStart
            hi == -diffStart + Len(bytes)
        IN IF lo < 0 \/ hi > c.cap THEN [a |-> Panic(x, "slice-bounds-case6"), cur |-> cur, next |-> next, bytes |-> bytes]
-          ELSE CO([x EXCEPT !.heap[cur].b = CopyInto(c.b, lo, bytes)], hr, c.prev, next, <<>>, start, end, fuel - 1)
-  ELSE CO(x, hr, c.prev, cur, bytes, start, end, fuel - 1)         \* "no overlap"
+          ELSE CO(Tag([x EXCEPT !.heap[cur].b = CopyInto(c.b, lo, bytes)], IF Len(bytes) = 0 THEN "ov6-empty" ELSE "ov6"), hr, c.prev, next, <<>>, start, end, fuel - 1)
+  ELSE CO(Tag(x, "ov0"), hr, c.prev, cur, bytes, start, end, fuel - 1)         \* "no overlap"
 
 CheckOverlap(x, hr, queue) ==
   LET start == x.lp.seq
@@ -205,10 +212,11 @@ CheckOverlap(x, hr, queue) ==
   IN IF x1.panic \/ ~(Len(r.bytes) > 0 /\ queue) THEN x1
      ELSE LET cv == LPConvert(x1, 0)                \* p = cv.first, p2 = cv.last
               x2 == [cv.a EXCEPT !.h[hr].pages = @ + cv.n]
-              x3 == IF r.cur # 0 THEN [x2 EXCEPT !.heap[r.cur].next = cv.first, !.heap[cv.first].prev = r.cur]
-                    ELSE [x2 EXCEPT !.h[hr].first = cv.first]
-          IN IF r.next # 0 THEN [x3 EXCEPT !.heap[cv.last].next = r.next, !.heap[r.next].prev = cv.last]
-             ELSE [x3 EXCEPT !.h[hr].last = cv.last]
+              x3 == IF r.cur # 0 THEN Tag([x2 EXCEPT !.heap[r.cur].next = cv.first, !.heap[cv.first].prev = r.cur], "ins-after-page")
+                    ELSE Tag([x2 EXCEPT !.h[hr].first = cv.first], "ins-as-first")
+          IN IF r.next # 0 THEN Tag([x3 EXCEPT !.heap[cv.last].next = r.next, !.heap[r.next].prev = cv.last],
+                                    IF cv.n > 1 THEN "ins-multi-before-page" ELSE "ins-before-page")
+             ELSE Tag([x3 EXCEPT !.h[hr].last = cv.last], "ins-as-last")
 
 (* overlapExisting: tcpassembly.go:933-959; returns <<bytes, seq, panicked>> *)
 OverlapExisting(x, hr, start, bytes) ==
@@ -226,11 +234,12 @@ HandleBytes(x, hr, bytes, seq, start, end, queue, ts) ==
   IF queue
   THEN LET x2 == CheckOverlap(x1, hr, TRUE) IN
        IF (conf.limit > 0 /\ x2.h[hr].pages >= conf.limit) \/ (TotalLimit > 0 /\ x2.used >= TotalLimit)
-       THEN AddNextFromConn(x2, hr) ELSE x2
+       THEN Tag(AddNextFromConn(x2, hr), IF x2.h[hr].first = 0 THEN "limit-hit-nothing-queued" ELSE "limit-hit") ELSE x2
   ELSE LET oe == OverlapExisting(x1, hr, seq, x1.lp.b)
-           x2 == [x1 EXCEPT !.lp.b = oe[1], !.lp.seq = oe[2]]
+           x2 == Tag([x1 EXCEPT !.lp.b = oe[1], !.lp.seq = oe[2]],
+                     IF Len(oe[1]) = Len(bytes) THEN "oe-none" ELSE IF Len(oe[1]) = 0 THEN "oe-all" ELSE "oe-part")
            x3 == IF oe[3] THEN Panic(x2, "slice-bounds-overlapExisting") ELSE CheckOverlap(x2, hr, FALSE)
-       IN IF Len(x3.lp.b) # 0 \/ end \/ start THEN [x3 EXCEPT !.ret = Append(@, 0)] ELSE x3
+       IN IF Len(x3.lp.b) # 0 \/ end \/ start THEN [x3 EXCEPT !.ret = Append(@, 0)] ELSE Tag(x3, "nothing-to-send")
 
 -----------------------------------------------------------------------------
 (* addPending: tcpassembly.go:1119-1146; returns [a, s] *)
@@ -248,8 +257,8 @@ AddPending(x, hr, firstSeq) ==
            s == SumLen(x, ids, 1)
        IN IF Add(x.heap[sv].seq, s) # firstSeq
           THEN \* non-continuous saved: drop them (p.release: pageCache.used only; half.pages is NOT adjusted)
-               [a |-> [ReleaseOnly(x, ids, 1) EXCEPT !.h[hr].saved = 0, !.h[hr].pages = IF PagesFix THEN @ - Len(ids) ELSE @], s |-> 0]
-          ELSE [a |-> [x EXCEPT !.ret = ids \o @], s |-> s]
+               [a |-> Tag([ReleaseOnly(x, ids, 1) EXCEPT !.h[hr].saved = 0, !.h[hr].pages = IF PagesFix THEN @ - Len(ids) ELSE @], "saved-dropped"), s |-> 0]
+          ELSE [a |-> Tag([x EXCEPT !.ret = ids \o @], IF Len(ids) > 1 THEN "saved-prepended-multi" ELSE "saved-prepended"), s |-> s]
 
 (* addContiguous: tcpassembly.go:1149-1176; returns [a, last] *)
 RECURSIVE ACLoop(_, _, _, _, _)
@@ -275,7 +284,10 @@ BuildSG(x, hr) ==
       x1 == [q.a EXCEPT !.sg = [all |-> q.a.ret, skip |-> skip, saved |-> p.s, toKeep |-> -1]]
       lc == x1.ret[Len(x1.ret)]
       x2 == IF lc # 0 /\ ~x1.heap[lc].endSet THEN Flag(x1, "stale-end-flag-read") ELSE x1
-  IN [a |-> x2, end |-> CIsEnd(x2, lc), next |-> q.last]
+      nc == Len(q.a.ret) - Len(p.a.ret)
+      x3 == Tag(Tag(x2, IF skip < 0 THEN "sg-skip-unknown" ELSE IF skip = 0 THEN "sg-skip0" ELSE "sg-skip+"),
+                IF nc = 0 THEN "contig0" ELSE IF nc = 1 THEN "contig1" ELSE "contig2+")
+  IN [a |-> x3, end |-> CIsEnd(x3, lc), next |-> q.last]
 
 -----------------------------------------------------------------------------
 (* The stream's ReassembledSG as implemented by the harness: Lengths, Fetch(total), Info, then the
@@ -353,19 +365,26 @@ CleanSG(x, hr) ==
       f == IF x.sg.toKeep < 0 THEN [ndx |-> Len(all), skip |-> 0] ELSE CSFind(x, all, 1, 0, x.sg.toKeep)
       x1 == CSRelease(x, hr, all, 1, f.ndx)
       x2 == [x1 EXCEPT !.h[hr].saved = 0]
-  IN CSKeep(x2, hr, all, f.ndx + 1, f.skip, 0)
+      kc == IF f.ndx >= Len(all) THEN "keep-nothing"
+            ELSE IF all[f.ndx + 1] = 0 THEN (IF f.ndx + 1 < Len(all) THEN "keep-from-live-then-pages" ELSE "keep-from-live")
+            ELSE IF f.ndx + 1 <= x.sg.saved /\ x.sg.saved > 0 /\ x.h[hr].saved # 0 THEN "keep-from-saved" ELSE "keep-from-page"
+      x3 == Tag(Tag(x2, kc), IF f.skip > 0 THEN "keep-inside-container" ELSE "keep-at-boundary")
+  IN CSKeep(x3, hr, all, f.ndx + 1, f.skip, 0)
 
 (* closeHalfConnection: tcpassembly.go:1199-1225 *)
 RECURSIVE ReleaseCounted(_, _, _, _)
 ReleaseCounted(x, hr, ids, i) ==
   IF i > Len(ids) THEN x ELSE ReleaseCounted([Replace(x, ids[i]) EXCEPT !.h[hr].pages = @ - 1], hr, ids, i + 1)
 CloseHalf(x, hr) ==
-  LET x1 == [x EXCEPT !.h[hr].closed = TRUE]
+  LET nq == Len(ListIds(x, x.h[hr].first, <<>>, Fuel))
+      nsv == Len(ListIds(x, x.h[hr].saved, <<>>, Fuel))
+      x1 == Tag(Tag([x EXCEPT !.h[hr].closed = TRUE], IF nq = 0 THEN "close-q0" ELSE IF nq = 1 THEN "close-q1" ELSE "close-q2+"),
+                IF nsv = 0 THEN "close-s0" ELSE IF nsv = 1 THEN "close-s1" ELSE "close-s2+")
       x2 == ReleaseCounted(x1, hr, ListIds(x1, x1.h[hr].first, <<>>, Fuel), 1)      \* first/last keep their stale values
       x3 == IF ReleaseSaved THEN [ReleaseCounted(x2, hr, ListIds(x2, x2.h[hr].saved, <<>>, Fuel), 1) EXCEPT !.h[hr].saved = 0]
             ELSE x2
   IN IF x3.h["c2s"].closed /\ x3.h["s2c"].closed
-     THEN LET x4 == Emit(x3, [op |-> "complete", c |-> 1, remove |-> conf.remove])     \* ReassemblyComplete
+     THEN LET x4 == Emit(Tag(x3, "complete"), [op |-> "complete", c |-> 1, remove |-> conf.remove])     \* ReassemblyComplete
           IN IF conf.remove THEN [x4 EXCEPT !.exists = FALSE, !.live = FALSE] ELSE x4  \* connPool.remove
      ELSE x3
 
@@ -379,8 +398,8 @@ SendToConnection(x, hr) ==
 
 (* skipFlush: tcpassembly.go:1181-1197 *)
 SkipFlush(x, hr) ==
-  IF x.h[hr].first = 0 THEN CloseHalf(x, hr)
-  ELSE LET x1 == AddNextFromConn([x EXCEPT !.ret = <<>>], hr)
+  IF x.h[hr].first = 0 THEN CloseHalf(Tag(x, "skipflush-close"), hr)
+  ELSE LET x1 == AddNextFromConn(Tag([x EXCEPT !.ret = <<>>], "skipflush-send"), hr)
            x2 == SendToConnection(x1, hr)
        IN IF x2.rvNext # -1 THEN [x2 EXCEPT !.h[hr].nextSeq = x2.rvNext] ELSE x2
 
@@ -393,13 +412,15 @@ Assemble2(x, hr, seq0, bytes, syn, fin, rst, start, ts) ==
                    ELSE IF start THEN [seq |-> seq0, set |-> TRUE, queue |-> FALSE]
                    ELSE [seq |-> seq0, set |-> FALSE, queue |-> TRUE])
              ELSE [seq |-> seq0, set |-> FALSE, queue |-> (Diff(ns, seq0) > 0)]
-      x1 == IF dec.set THEN [x EXCEPT !.h[hr].nextSeq = dec.seq] ELSE x
+      dt == IF ns = -1 THEN (IF syn THEN "start-syn" ELSE IF start THEN "start-forced" ELSE "wait-for-start")
+            ELSE IF dec.queue THEN "gap-queue" ELSE IF syn THEN "syn-again" ELSE "contiguous"
+      x1 == Tag(IF dec.set THEN [x EXCEPT !.h[hr].nextSeq = dec.seq] ELSE x, dt)
       x2 == HandleBytes([x1 EXCEPT !.ret = <<>>], hr, bytes, dec.seq, syn, rst \/ fin, dec.queue, ts)
       x3 == IF Len(x2.ret) > 0 /\ ~x2.panic THEN SendToConnection(x2, hr) ELSE [x2 EXCEPT !.rvNext = -1]
   IN IF x3.rvNext # -1
      THEN LET n1 == x3.rvNext
               n2 == IF fin /\ (~FinOnlyClosed \/ x3.h[hr].closed) THEN Add(n1, 1) ELSE n1
-          IN [x3 EXCEPT !.h[hr].nextSeq = n2]
+          IN Tag([x3 EXCEPT !.h[hr].nextSeq = n2], IF n2 # n1 THEN "fin-counted" ELSE IF fin THEN "fin-not-counted" ELSE "next-updated")
      ELSE x3
 
 \* initial sequence numbers: direction 0 uses conf.isn, direction 1 an unrelated one
@@ -422,15 +443,16 @@ AssembleOp(x0, d, lo, hi, syn, fin, rst, ts) ==
                 syn |-> syn, fin |-> fin, rst |-> rst, force |-> force, ts |-> ts]
       \* StreamPool.getConnection (end = false: always creates) + connection.reset + StreamFactory.New
       x1 == IF x0.exists THEN x0
-            ELSE Emit([x0 EXCEPT !.exists = TRUE, !.firstDir = d, !.h = [r \in Roles |-> NewHalfC(ts)],
-                                 !.live = TRUE, !.seen = [q \in Dirs |-> FALSE]], [op |-> "new", c |-> 1])
+            ELSE Emit(Tag([x0 EXCEPT !.exists = TRUE, !.firstDir = d, !.h = [r \in Roles |-> NewHalfC(ts)],
+                                     !.live = TRUE, !.seen = [q \in Dirs |-> FALSE]], IF x0.live \/ x0.used > 0 \/ Len(x0.heap) > 0 THEN "new-again" ELSE "new"),
+                      [op |-> "new", c |-> 1])
       x2 == Emit(x1, segEv)
       hr == IF d = x2.firstDir THEN "c2s" ELSE "s2c"
       x3 == IF x2.h[hr].lastSeen < ts THEN [x2 EXCEPT !.h[hr].lastSeen = ts] ELSE x2
       start == (x3.h[hr].nextSeq = -1 /\ syn) \/ force
       seq0 == IF syn THEN IsnOf(d) ELSE Add(IsnOf(d), 1 + lo)
       bytes == IF syn THEN <<>> ELSE [i \in 1..(hi - lo) |-> lo + i - 1]
-      x4 == IF x3.h[hr].closed THEN x3 ELSE Assemble2(x3, hr, seq0, bytes, syn, fin, rst, start, ts)
+      x4 == IF x3.h[hr].closed THEN Tag(x3, "packet-on-closed-half") ELSE Assemble2(x3, hr, seq0, bytes, syn, fin, rst, start, ts)
       x5 == [x4 EXCEPT !.seen[d] = TRUE]
       n == IF syn THEN 0 ELSE hi - lo
   IN Api(x5, "assemble", 0, (n + P - 1) \div P)
@@ -457,14 +479,15 @@ ConnLastSeen(x) == IF x.h["c2s"].lastSeen < x.h["s2c"].lastSeen THEN x.h["s2c"].
 FlushClose(x, hr, t, tc) ==
   IF x.h[hr].closed THEN x
   ELSE LET x1 == FCLoop(x, hr, t, Fuel) IN
-       IF ~x1.h[hr].closed /\ x1.h[hr].first = 0 /\ ConnLastSeen(x1) < tc THEN CloseHalf(x1, hr) ELSE x1
+       IF ~x1.h[hr].closed /\ x1.h[hr].first = 0 /\ ConnLastSeen(x1) < tc THEN CloseHalf(Tag(x1, "age-close"), hr)
+       ELSE Tag(x1, IF x1.h[hr].closed THEN "age-flush-closed" ELSE IF x1.h[hr].first # 0 THEN "age-keeps-newer-data" ELSE "age-keeps-recent-conn")
 FlushOlderOp(x, t) ==
   LET x1 == Emit(x, [op |-> "flushb", kind |-> "older", t |-> t])
       x2 == IF x1.exists
             THEN LET y1 == FlushClose(x1, "s2c", t, t)
                      y2 == FlushClose(y1, "c2s", t, t)
                  IN IF y2.h["s2c"].closed /\ y2.h["c2s"].closed /\ y2.h["s2c"].lastSeen < t /\ y2.h["c2s"].lastSeen < t
-                    THEN [y2 EXCEPT !.exists = FALSE] ELSE y2
+                    THEN Tag([y2 EXCEPT !.exists = FALSE], IF y2.exists THEN "age-remove" ELSE "age-remove-gone") ELSE y2
             ELSE x1
       x3 == Emit(x2, [op |-> "flushe", kind |-> "older", t |-> t])
   IN Api(x3, "flusholder", t, 0)
@@ -491,7 +514,8 @@ Do(op, x) ==
       f == Feed(st, evs, 1, verdicts)
   IN /\ Script = <<>> \/ (Len(ops) < Len(Script) /\ Script[Len(ops) + 1] = op)
      /\ ops' = Append(ops, op)
-     /\ a' = [x EXCEPT !.evs = <<>>, !.ret = <<>>, !.lp = NewLP, !.sg = NewSG, !.rvNext = -1]
+     /\ a' = [x EXCEPT !.evs = <<>>, !.ret = <<>>, !.lp = NewLP, !.sg = NewSG, !.rvNext = -1, !.tags = {},
+                       !.ltags = x.tags]
      /\ st' = f[1] /\ verdicts' = f[2]
      /\ pred' = Append(pred, evs)
      /\ UNCHANGED conf
@@ -569,5 +593,12 @@ OpsHash(o, i, acc) ==
 BehHash == (OpsHash(ops, 1, 7) + 17 * conf.isn + 5 * conf.limit + 3 * (conf.keep + 1) + (IF conf.force THEN 1 ELSE 0)
             + (IF conf.remove THEN 2 ELSE 0)) % ExportMod
 Complete == Len(ops) = (IF Script = <<>> THEN MaxOps ELSE Len(Script)) \/ a.panic
-Export == (Complete /\ BehHash = ExportRem) => PrintT("BEH " \o ToJson([cfg |-> conf, ops |-> ops, pred |-> pred, flags |-> a.flags, verdicts |-> verdicts]))
+\* signature-directed export: one behaviour per distinct set of decisions taken in its last operation (per TLC worker:
+\* the registers are thread local) and configuration class, besides the hash-selected slice
+Sig == <<a.ltags, conf.limit > 0, conf.keep>>
+ExportLine(kind) == PrintT(kind \o ToJson([cfg |-> conf, ops |-> ops, pred |-> pred, flags |-> a.flags, verdicts |-> verdicts, sig |-> Sig]))
+Export ==
+  Complete => IF BehHash = ExportRem THEN ExportLine("BEH ")
+              ELSE IF ExportSig /\ Sig \notin TLCGet(1) THEN TLCSet(1, TLCGet(1) \cup {Sig}) /\ ExportLine("SIG ")
+              ELSE TRUE
 =============================================================================
